@@ -44,6 +44,28 @@ func TestVerifSockaddrTable(t *testing.T) {
 	if ifi, err := net.InterfaceByIndex(1); err == nil {
 		lo = ifi.Name
 	}
+	// every converted address is kept and looked at again after all the other conversions: it must still be
+	// the same address (the conversions share pooled scratch memory)
+	type keptAddr struct {
+		back net.Addr
+		ip   net.IP
+		port int
+		zone string
+		name string
+		key  string
+	}
+	var kept []keptAddr
+	same := func(k keptAddr) bool {
+		switch b := k.back.(type) {
+		case *net.TCPAddr:
+			return b.IP.Equal(k.ip) && b.Port == k.port && b.Zone == k.zone
+		case *net.UDPAddr:
+			return b.IP.Equal(k.ip) && b.Port == k.port && b.Zone == k.zone
+		case *net.UnixAddr:
+			return b.Name == k.name
+		}
+		return false
+	}
 	for _, v := range tb.Socks {
 		key := fmt.Sprint(v)
 		rep.Eval(key)
@@ -106,6 +128,10 @@ func TestVerifSockaddrTable(t *testing.T) {
 			case *net.UnixAddr:
 				ok = b.Name == v.Name
 			}
+			if ok {
+				// (the expectation is held in memory of its own: strings.Clone-like copies)
+				kept = append(kept, keptAddr{back: back, ip: append(net.IP(nil), ip...), port: v.Port, zone: string(append([]byte(nil), zone...)), name: string(append([]byte(nil), v.Name...)), key: key})
+			}
 			if !ok {
 				rep.Violation("sockaddr/roundtrip", fmt.Sprintf("%v (zone %q) -> %#v -> %v (%q)", in, zone, sa, back, fmt.Sprintf("%#v", back)), nil)
 			}
@@ -115,6 +141,13 @@ func TestVerifSockaddrTable(t *testing.T) {
 			}
 		}()
 	}
+	for _, k := range kept {
+		if !same(k) {
+			rep.Violation("sockaddr/unstable", fmt.Sprintf("%s: the converted address changed after later conversions: now %v (%q)", k.key, k.back, fmt.Sprintf("%#v", k.back)), nil)
+			break
+		}
+	}
+	rep.Set("kept_and_rechecked", len(kept))
 	if len(tb.Socks) > 0 {
 		rep.Sample(tb.Socks[0])
 	}
